@@ -21,7 +21,10 @@ import (
 	"github.com/99designs/gqlgen/graphql/executor"
 	"github.com/99designs/gqlgen/graphql/handler"
 	"github.com/99designs/gqlgen/graphql/handler/transport"
+	"io"
+	"net/http"
 	"net/http/httptest"
+	"net/url"
 )
 
 // Cmd is one line of the probe protocol (stdin, ndjson).
@@ -194,6 +197,10 @@ func (p *Probe) Exec(c *Cmd) *Result {
 		}()
 		if c.Mode == "http" {
 			httpResps = p.execHTTP(base, c, res)
+			return
+		}
+		if strings.HasPrefix(c.Mode, "tp:") {
+			p.execTransport(run, c, res)
 			return
 		}
 		ctx := graphql.StartOperationTrace(base)
@@ -525,4 +532,68 @@ func (p *Probe) execHTTP(base context.Context, c *Cmd, res *Result) []Resp {
 		out.Errs = append(out.Errs, ErrP{P: PathKey(e.Path), C: ErrClass(e.Message)})
 	}
 	return []Resp{out}
+}
+
+// execTransport runs the operation over a real net/http server through one of the
+// HTTP transports (tp:post | tp:get | tp:sse | tp:mixed). The run's cancel function
+// aborts the CLIENT request (the server then sees its request context cancelled, as
+// with a disconnecting client). Only termination / leaks are of interest here (C05).
+func (p *Probe) execTransport(run *Run, c *Cmd, res *Result) {
+	srv := handler.New(p.ES)
+	srv.AddTransport(transport.SSE{KeepAlivePingInterval: 3 * time.Millisecond})
+	srv.AddTransport(transport.MultipartMixed{})
+	srv.AddTransport(transport.GET{})
+	srv.AddTransport(transport.POST{})
+	srv.SetRecoverFunc(RecoverFunc)
+	srv.SetErrorPresenter(ErrorPresenter)
+	srv.Use(faultExt{})
+	ts := httptest.NewServer(http.HandlerFunc(func(w http.ResponseWriter, r *http.Request) {
+		srv.ServeHTTP(w, r.WithContext(WithRun(r.Context(), run)))
+	}))
+	cctx, ccancel := context.WithCancel(context.Background())
+	run.mu.Lock()
+	run.Cancel = ccancel
+	run.mu.Unlock()
+	defer ccancel()
+	body, _ := json.Marshal(map[string]any{"query": c.Query, "operationName": c.OpName, "variables": c.Vars})
+	var req *http.Request
+	switch c.Mode {
+	case "tp:get":
+		req, _ = http.NewRequestWithContext(cctx, "GET", ts.URL+"/?query="+url.QueryEscape(c.Query), nil)
+	default:
+		req, _ = http.NewRequestWithContext(cctx, "POST", ts.URL+"/", strings.NewReader(string(body)))
+		req.Header.Set("Content-Type", "application/json")
+		switch c.Mode {
+		case "tp:sse":
+			req.Header.Set("Accept", "text/event-stream")
+		case "tp:mixed":
+			req.Header.Set("Accept", "multipart/mixed")
+		}
+	}
+	cl := &http.Client{Transport: &http.Transport{DisableKeepAlives: true}}
+	resp, err := cl.Do(req)
+	n := 0
+	status := 0
+	if err == nil {
+		status = resp.StatusCode
+		b, _ := io.ReadAll(resp.Body)
+		n = len(b)
+		resp.Body.Close()
+	}
+	ccancel()
+	res.Notes = append(res.Notes, fmt.Sprintf("transport %s status=%d bytes=%d err=%v", c.Mode, status, n, err != nil))
+	res.Resps = append(res.Resps, Resp{Errs: []ErrP{}, HasNext: "-", Status: status, Data: Tagged{"t": "absent"}})
+	// the handler must return: Close waits for outstanding requests
+	closed := make(chan struct{})
+	go func() { ts.CloseClientConnections(); ts.Close(); close(closed) }()
+	to := 5 * time.Second
+	if c.TimeoutMs > 0 {
+		to = time.Duration(c.TimeoutMs) * time.Millisecond
+	}
+	select {
+	case <-closed:
+	case <-time.After(to):
+		res.Hung = true
+		res.LeakStack = p.gqlgenStacks(4000)
+	}
 }
